@@ -1,10 +1,10 @@
 (* Property C04 -- the lifted IL computes the documented result and flags for every operand value.
-   Statements only; proofs are in Proofs/AluProofs.v and Proofs/ExecProofs.v.
+   Statements only; proofs are in Proofs/AluProofs.v, ExecProofs.v, ExecProofs2.v and ExecMemProofs.v.
    Model: Model/IL.v (evaluator) + Model/Lift.v (lifter), tied to the Python code by IL-text and execution
    correspondence on every run; documented semantics: Model/Spec.v (README instruction tables). *)
 From Coq Require Import ZArith NArith List Bool.
 From BE Require Import Model.TableTypes Gen.Tables Model.Regs Model.Decode Model.IL Model.Lift Model.Static Model.Spec
-  Model.Emu Proofs.AluProofs Proofs.ExecProofs.
+  Model.Emu Proofs.AluProofs Proofs.ExecProofs Proofs.AccessProofs Proofs.ExecProofs2 Proofs.ExecMemProofs.
 Import ListNotations.
 Open Scope Z_scope.
 
@@ -80,6 +80,52 @@ Theorem C04_opcodes_are_the_tables : forallb (fun oc =>
     && match d_ops (entry_of (fst oc)) with [PReg RA 1; PImm8] => true | _ => false end) alu_imm_opcodes = true.
 Proof. exact opcodes_table_check. Qed.
 Print Assumptions C04_opcodes_are_the_tables.
+
+(* same strength for CMP / TEST / MV A,n and for ROR, ROL, SHR, SHL, SWAP A (carry-in included, flags an instruction is
+   documented not to affect preserved) *)
+Theorem C04_cmp_test_mv_A_imm_exact : forall n, (n < 256)%N ->
+  exec_is_spec (mk_instr 96 [OReg RA 1; OImm8 n] 2) 96 /\
+  exec_is_spec (mk_instr 100 [OReg RA 1; OImm8 n] 2) 100 /\
+  exec_is_spec (mk_instr 8 [OReg RA 1; OImm8 n] 2) 8.
+Proof. intros n Hn. repeat split; [exact (cmp_A_imm n Hn) | exact (test_A_imm n Hn) | exact (mv_A_imm n Hn)]. Qed.
+Print Assumptions C04_cmp_test_mv_A_imm_exact.
+
+Theorem C04_rotate_shift_swap_A_exact :
+  exec_is_spec (mk_instr 228 [OReg RA 1] 1) 228 /\ exec_is_spec (mk_instr 230 [OReg RA 1] 1) 230 /\
+  exec_is_spec (mk_instr 244 [OReg RA 1] 1) 244 /\ exec_is_spec (mk_instr 246 [OReg RA 1] 1) 246 /\
+  exec_is_spec (mk_instr 238 [OReg RA 1] 1) 238.
+Proof. repeat split; [exact ror_A | exact rol_A | exact shr_A | exact shl_A | exact swap_A]. Qed.
+Print Assumptions C04_rotate_shift_swap_A_exact.
+
+(* internal-memory forms, with no prefix and with each of the 15 prefixes (the cell is the one the prefix's addressing mode
+   names, BP/PX/PY taken from the state), byte memory: MV r,(n) for r = A, BA, I, X, Y, U, S (widths 1, 2, 3) load exactly
+   the little-endian content of the cell into r; MV (n),r and MV/MVW (n),imm store exactly the value's bytes into the cell;
+   every other register, flag and byte is untouched *)
+Theorem C04_mv_load_imem_exact :
+  load_is_spec 128 (fun n => [OReg RA 1; OIMem 1 n]) /\ load_is_spec 130 (fun n => [OReg RBA 2; OIMem 2 n]) /\
+  load_is_spec 131 (fun n => [OReg RI 2; OIMem 2 n]) /\ load_is_spec 132 (fun n => [OReg RX 3; OIMem 3 n]) /\
+  load_is_spec 133 (fun n => [OReg RY 3; OIMem 3 n]) /\ load_is_spec 134 (fun n => [OReg RU 3; OIMem 3 n]) /\
+  load_is_spec 135 (fun n => [OReg RS 3; OIMem 3 n]).
+Proof. repeat split; [exact mv_A_imem | exact mv_BA_imem | exact mv_I_imem | exact mv_X_imem | exact mv_Y_imem | exact mv_U_imem | exact mv_S_imem]. Qed.
+Print Assumptions C04_mv_load_imem_exact.
+
+Theorem C04_mv_store_imem_exact :
+  store_is_spec 160 (fun n => [OIMem 1 n; OReg RA 1]) 2 /\ store_is_spec 162 (fun n => [OIMem 2 n; OReg RBA 2]) 2 /\
+  store_is_spec 163 (fun n => [OIMem 2 n; OReg RI 2]) 2 /\ store_is_spec 164 (fun n => [OIMem 3 n; OReg RX 3]) 2 /\
+  store_imm_is_spec 204 (fun n k => [OIMem 1 n; OImm8 k]) 3 /\ store_imm_is_spec 205 (fun n k => [OIMem 2 n; OImm16 k]) 4.
+Proof. repeat split; [exact mv_imem_A | exact mv_imem_BA | exact mv_imem_I | exact mv_imem_X | exact mv_imem_imm8 | exact mvw_imem_imm16]. Qed.
+Print Assumptions C04_mv_store_imem_exact.
+
+Theorem C04_more_opcodes_are_the_tables :
+  (forallb (fun oc => match d_cls (entry_of (fst oc)), snd oc with
+                      | I_ROR, I_ROR | I_ROL, I_ROL | I_SHR, I_SHR | I_SHL, I_SHL | I_SWAP, I_SWAP => true | _, _ => false end
+                      && match d_ops (entry_of (fst oc)) with [PReg RA 1] => true | _ => false end) alu_A_opcodes = true /\
+   match d_cls (entry_of 96), d_cls (entry_of 100), d_cls (entry_of 8) with I_CMP, I_TEST, I_MV => true | _, _, _ => false end = true) /\
+  map (fun x => (d_cls (entry_of (fst x)), d_ops (entry_of (fst x)))) mem_form_opcodes = map (fun x => (I_MV, snd x)) mem_form_opcodes /\
+  (forallb (fun c => match c with None => true | Some p => existsb (fun q => (fst (fst q) =? p)%N) py_pre_table end) pre_choices = true /\
+   length py_pre_table = 15%nat).
+Proof. exact (conj alu_A_opcodes_check (conj mem_form_opcodes_check pre_choices_are_the_table)). Qed.
+Print Assumptions C04_more_opcodes_are_the_tables.
 
 (* non-vacuity: a concrete instruction, state and result *)
 Example C04_example :
